@@ -31,6 +31,9 @@ def readRequest (kv : KV) : Option String := do
   let data ← (kv.get? "data").bind parseHex?
   let script ← (kv.strs "script").mapM parseEv?
   let ops ← (kv.strs "ops").mapM parseRop?
+  -- `rx=naive`: the reader brings its own `read_exact` (`let n = self.read(buf)?;` in a loop), so `Interrupted` escapes from it like any
+  -- other error - also after part of the buffer was delivered - and the generator panics: an interrupt then acts as an error event
+  let script := if kv.get? "rx" == some "naive" then script.map (fun e => if e == .intr then .err else e) else script
   pure (joinWith " " ((ReadGen.run ⟨data, script⟩ ops).map showRout))
 
 def mockRequest (kv : KV) : Option String := do
